@@ -71,7 +71,7 @@ theorem Inv.clobber {st : List Byte} {m : Mach} (h : Inv st m) : Inv st m.clobbe
   r9 := by rw [reg_clobber m 9 (Or.inr (by omega))]; exact h.r9
   r10 := by rw [reg_clobber m 10 (Or.inr (by omega))]; exact h.r10
   regsLen := by simp [Mach.clobber, h.regsLen]
-  stEq := h.stEq
+  sim := h.sim
   stLen := h.stLen
 
 theorem stack_setReg (m : Mach) (r : Nat) (v : Word) : (m.setReg r v).stack = m.stack := rfl
@@ -88,7 +88,8 @@ def keyEvs (lo hi : Int) (kk ipo pto : Nat) : List Ev :=
 
 theorem lrun_keyEvs (env : Env) (st : List Byte) (lo hi : Int) (kk ipo pto : Nat) (rest : List Ev) (m : Mach)
     (hI : Inv st m) (hlen : st.length = 512)
-    (hk : kk = 476 ∨ kk = 444) (hipo : ipo + 4 ≤ 512) (hpto : pto + 2 ≤ 512) :
+    (hk : kk = 476 ∨ kk = 444) (hipo : ipo + 4 ≤ 512) (hpto : pto + 2 ≤ 512)
+    (hsi : ∀ j, ipo ≤ j → j < ipo + 4 → Stable j) (hsp : ∀ j, pto ≤ j → j < pto + 2 → Stable j) :
     ∃ m', Inv st m' ∧
       m'.stack = keyStack m.stack kk (BitVec.ofNat 64 (fieldN st ipo 4)).toNat
         (BitVec.ofNat 64 (fieldN st pto 2)).toNat (BitVec.ofNat 64 (fieldN st 104 1)).toNat
@@ -111,6 +112,7 @@ theorem lrun_keyEvs (env : Env) (st : List Byte) (lo hi : Int) (kk ipo pto : Nat
   -- 5, 6
   have e5 := step_ldx_state (env := env) hI4 opLoadReg32 1 ipo 4 0 (bs := (st.drop ipo).take 4)
     (hop := Or.inr (Or.inr (Or.inl ⟨rfl, rfl⟩))) (hd := by omega) (hk := hipo) (hb := getBytes_full hlen ipo 4 hipo)
+    (hstab := hsi)
   have hI5 := hI4.setReg 1 (BitVec.ofNat 64 (fieldN st ipo 4)) (by omega) (by omega) (by omega)
   have e6 := step_stx_stack (env := env) hI5 opStoreReg32 1 (kk + 12) 4 0 (x := BitVec.ofNat 64 (fieldN st ipo 4))
     (hop := Or.inr (Or.inr (Or.inl ⟨rfl, rfl⟩))) (hk := by omega) (hv := reg_setReg_eq (rl hI4))
@@ -119,6 +121,7 @@ theorem lrun_keyEvs (env : Env) (st : List Byte) (lo hi : Int) (kk ipo pto : Nat
   -- 7, 8
   have e7 := step_ldx_state (env := env) hI6 opLoadReg16 1 pto 2 0 (bs := (st.drop pto).take 2)
     (hop := Or.inr (Or.inl ⟨rfl, rfl⟩)) (hd := by omega) (hk := hpto) (hb := getBytes_full hlen pto 2 hpto)
+    (hstab := hsp)
   have hI7 := hI6.setReg 1 (BitVec.ofNat 64 (fieldN st pto 2)) (by omega) (by omega) (by omega)
   have e8 := step_stx_stack (env := env) hI7 opStoreReg16 1 (kk + 16) 2 0 (x := BitVec.ofNat 64 (fieldN st pto 2))
     (hop := Or.inr (Or.inl ⟨rfl, rfl⟩)) (hk := by omega) (hv := reg_setReg_eq (rl hI6))
@@ -128,6 +131,7 @@ theorem lrun_keyEvs (env : Env) (st : List Byte) (lo hi : Int) (kk ipo pto : Nat
   -- 9, 10
   have e9 := step_ldx_state (env := env) hI8 opLoadReg8 1 104 1 0 (bs := (st.drop 104).take 1)
     (hop := Or.inl ⟨rfl, rfl⟩) (hd := by omega) (hk := by omega) (hb := getBytes_full hlen 104 1 (by omega))
+    (hstab := by intro j h1 h2; unfold Stable; omega)
   have hI9 := hI8.setReg 1 (BitVec.ofNat 64 (fieldN st 104 1)) (by omega) (by omega) (by omega)
   have e10 := step_stx_stack (env := env) hI9 opStoreReg8 1 (kk + 18) 1 0 (x := BitVec.ofNat 64 (fieldN st 104 1))
     (hop := Or.inl ⟨rfl, rfl⟩) (hk := by omega) (hv := reg_setReg_eq (rl hI8))
@@ -178,7 +182,8 @@ def lookupEvs (c : Cfg) (lo hi : Int) (kk ipo pto : Nat) : List Ev :=
 theorem lrun_lookupEvs (env : Env) (st : List Byte) (lo hi : Int) (kk ipo pto : Nat) (rest : List Ev) (m : Mach)
     (hI : Inv st m) (hlen : st.length = 512) (hv6 : env.c.v6 = false)
     (hfd : mapHandle env.c.ipSetMapFD ≠ mapHandle env.c.stateMapFD)
-    (hk : kk = 476 ∨ kk = 444) (hipo : ipo + 4 ≤ 512) (hpto : pto + 2 ≤ 512) :
+    (hk : kk = 476 ∨ kk = 444) (hipo : ipo + 4 ≤ 512) (hpto : pto + 2 ≤ 512)
+    (hsi : ∀ j, ipo ≤ j → j < ipo + 4 → Stable j) (hsp : ∀ j, pto ≤ j → j < pto + 2 → Stable j) :
     ∃ m', Inv st m' ∧
       m'.reg 0 = some (if env.member
           (rev64bv (BitVec.ofNat 64 ((((sext32 lo).setWidth 32).setWidth 64).toNat % 4294967296 +
@@ -190,7 +195,7 @@ theorem lrun_lookupEvs (env : Env) (st : List Byte) (lo hi : Int) (kk ipo pto : 
   have hkk : kk + 20 ≤ 512 := by rcases hk with rfl | rfl <;> omega
   obtain ⟨m1, hI1, hs1, e1⟩ := lrun_keyEvs env st lo hi kk ipo pto
     (loadMapFD R1 env.c.ipSetMapFD ++ [mov64 R2 R10, .ins ⟨opAddImm64, 2, 0, 0, ((kk : Nat) : Int) - 512⟩,
-      call helperMapLookupElem] ++ rest) m hI hlen hk hipo hpto
+      call helperMapLookupElem] ++ rest) m hI hlen hk hipo hpto hsi hsp
   have rl : ∀ {mm : Mach}, Inv st mm → ∀ r, r < 11 → r < mm.regs.length := fun h r hr => by rw [h.regsLen]; exact hr
   have hI2 := hI1.setReg 1 (mapHandle env.c.ipSetMapFD) (by omega) (by omega) (by omega)
   have hI3 := hI2.setReg 2 stackW (by omega) (by omega) (by omega)
@@ -281,6 +286,8 @@ theorem lrun_ipSetLookup (env : Env) (st : List Byte) (id : Nat) (leg : Leg) (re
   obtain ⟨m', hI', hr, he⟩ := lrun_lookupEvs env st (toInt32 (rev64 id)) (toInt32 (rev64 id / 4294967296))
     leg.kk leg.ipo leg.pto rest m hI hlen hv6 hfd (by cases leg <;> simp [Leg.kk])
     (by cases leg <;> simp [Leg.ipo]) (by cases leg <;> simp [Leg.pto])
+    (by cases leg <;> (intro j h1 h2; simp only [Leg.ipo] at h1 h2; unfold Stable; omega))
+    (by cases leg <;> (intro j h1 h2; simp only [Leg.pto] at h1 h2; unfold Stable; omega))
   refine ⟨m', hI', ?_, he⟩
   rw [hr, key_id id hid, ofNat_toNat64 32 _ (by omega), ofNat_toNat64 16 _ (by omega), ofNat_toNat64 8 _ (by omega)]
   have : memRef env (pktOfD st) leg id = env.member id [BitVec.ofNat 32 (fieldN st leg.ipo 4)]
